@@ -7,12 +7,26 @@ use super::{ActorHandle, JoinFuture, Spawner};
 #[derive(Copy, Clone, Debug, Default)]
 pub struct SmolSpawner;
 
+/// Dropping a `smol::Task` cancels it, whereas tokio and async-std detach a task whose handle is dropped.
+/// Detach on drop, so that an actor keeps running when its handle (e.g. an `OwningAddr`) goes away.
+struct DetachOnDrop<T>(Option<smol::Task<T>>);
+
+impl<T> Drop for DetachOnDrop<T> {
+    fn drop(&mut self) {
+        if let Some(task) = self.0.take() {
+            task.detach();
+        }
+    }
+}
+
 impl<A: Actor> Spawner<A> for SmolSpawner {
     fn spawn_actor<F>(future: F) -> super::ActorHandle<A>
     where
         F: Future<Output = crate::DynResult<A>> + Send + 'static,
     {
-        let handle = Arc::new(async_lock::Mutex::new(Some(smol::spawn(future))));
+        let handle = Arc::new(async_lock::Mutex::new(Some(DetachOnDrop(Some(
+            smol::spawn(future),
+        )))));
         log::trace!("spawning smol task");
 
         let detach_handle = Arc::clone(&handle);
@@ -21,7 +35,8 @@ impl<A: Actor> Spawner<A> for SmolSpawner {
             log::trace!("joining smol task");
             let handle = Arc::clone(&handle);
             Box::pin(async move {
-                let mut handle: Option<smol::Task<DynResult<A>>> = handle.lock().await.take();
+                let mut handle: Option<smol::Task<DynResult<A>>> =
+                    handle.lock().await.take().and_then(|mut task| task.0.take());
 
                 if let Some(handle) = handle.take() {
                     // TODO: don't eat the error
@@ -37,10 +52,8 @@ impl<A: Actor> Spawner<A> for SmolSpawner {
         })
         .with_detach_fn(move || {
             log::trace!("detaching smol task");
-            let mut handle = detach_handle.lock_blocking().take();
-            if let Some(handle) = handle.take() {
-                handle.detach();
-            }
+            // dropping the guard detaches the task
+            drop(detach_handle.lock_blocking().take());
         })
     }
 
